@@ -212,11 +212,24 @@ class World:
         abs_ = {'tid': t, 'code': self.code(eid), 'cls': cls, 'q': q, 'a': a}
         return AEv(abs_, eid | q, self.ctid(t), words, data, name_or_id if isinstance(name_or_id, str) else None)
 
-    def sys(self, name, q, t, words=None):
+    def sys(self, name, q, t, words=None, ood=False):
         cls = AUDIT[name]['cls'] if name in AUDIT else 'SYS0'     # decoders newer than the audit: context-free
         if words is None:
             words = self.words(name, 'end' if q == 2 else ('start' if q == 1 else 'single'))
-        return self._mk(name, cls, q, t, {'x': 0}, words=words)
+        ev = self._mk(name, cls, q, t, {'x': 0}, words=words)
+        if ood:
+            # one word with an audited (restricted) domain gets a value outside it; the event is marked: a decoder failure
+            # at this operation is tolerated, everything else is not
+            dom = AUDIT[name]['dom'] if name in AUDIT else [None] * 8
+            off = 4 if q == 2 else 0
+            pos = [i for i in range(4) if isinstance(dom[i + off], list)]
+            if pos:
+                i = self.rnd.choice(pos)
+                ws = list(ev.words)
+                ws[i] = self.rnd.choice([0x7fffabcd, MASK64 - 77, 0xdead0000beef])
+                ev.words = tuple(ws)
+            ev.abs['ood'] = True
+        return ev
 
     def known(self, q, t, name=None):
         if name is None:
@@ -464,6 +477,9 @@ def _run_gen(world, stream, parser=None, log=None, render=True):
             r = p.feed(e)
         except Exception as exn:
             ex.steps.append({'emit': False, 'err': 'feed:' + type(exn).__name__})
+            if a.abs.get('ood'):
+                yield k           # a decoder refused an out-of-domain argument: the caller catches it and goes on feeding
+                continue
             ex.error = (k, repr(exn))
             break
         yield k
